@@ -3640,6 +3640,10 @@ class Fused(Blockwise):
 
     @staticmethod
     def _execute_task(graph, name, *deps):
+        # Do not mutate ``graph``: it is part of the task and may be executed
+        # again (e.g. a persisted or legacy graph held by ``FromGraph``), and it
+        # would keep the data of the dependencies alive
+        graph = dict(graph)
         for i, dep in enumerate(deps):
             graph["_" + str(i)] = dep
         return dask.core.get(graph, name)
